@@ -8,6 +8,7 @@ import AdfObdd.Props.C03
 import AdfObdd.Props.C04
 import AdfObdd.Props.C05
 import AdfObdd.MemoCheckProofs
+import AdfObdd.MemoTransparent
 /-! # C11 — cache transparency, handle stability, determinism across call histories
 
 Every public call only *extends* the node table and adds sound memo entries (`WF` is preserved,
@@ -194,6 +195,61 @@ example :
     MemoCheck.memoCheckF 2 false auditTable { auditRows with deps := some [[], [], [0], [1], [1]] } = false := by
   refine ⟨?_, ?_, ?_, ?_, ?_, ?_⟩ <;> decide
 
+/-- **handles_memo_independent** (memo transparency of the allocation order): on two well-formed
+stores with the same node table — memo tables `iteC` / `resC` warm, cold or different on either side —
+every operation sequence issues the same handle NUMBERS and builds the same node table; in
+particular (second half) on a store whose memo tables were dropped.  Proved in
+`AdfObdd/MemoTransparent.lean`: an operation whose result is already represented returns that handle
+and allocates nothing (`MemoT.iteF_rep`, `MemoT.restrictF_rep`), hence a memo hit on one side is
+matched by the recomputation on the other (`MemoT.iteF_lock`, `MemoT.restrictF_lock`). -/
+theorem handles_memo_independent (ops : List Op) (s s' : Store) (hist : List Nat) (w : WF s) (w' : WF s')
+    (hn : s'.nodes = s.nodes) (hh : ∀ k, k < hist.length → hget hist k < s.nodes.size)
+    (hv : opsValid ops hist.length) :
+    ((runOps ops s' hist).2 = (runOps ops s hist).2 ∧
+     (runOps ops s' hist).1.nodes = (runOps ops s hist).1.nodes) ∧
+    ((runOps ops { s with iteC := {}, resC := {} } hist).2 = (runOps ops s hist).2 ∧
+     (runOps ops { s with iteC := {}, resC := {} } hist).1.nodes = (runOps ops s hist).1.nodes) :=
+  ⟨runOps_memo_transparent ops s s' hist w w' hn hh hv, runOps_memo_dropped ops s hist w hh hv⟩
+
+/-- the single-call core, for reference: a diagram operation whose result function is already
+represented by a handle `r` returns `r` and leaves the node table alone, whatever the memo holds -/
+theorem represented_result_not_reallocated (s : Store) (w : WF s) (i t e r : Nat)
+    (hi : i < s.nodes.size) (ht : t < s.nodes.size) (he : e < s.nodes.size) (hr : r < s.nodes.size)
+    (hev : ∀ σ, eval s r σ = if eval s i σ then eval s t σ else eval s e σ) :
+    (opIte s i t e).1.nodes = s.nodes ∧ (opIte s i t e).2 = r :=
+  MemoT.iteF_rep (i + t + e + 1) s i t e r w hi ht he (by omega) hr hev
+
+/-- the reachable states satisfy the hypotheses: after any valid operation sequence from the fresh
+object, the state and its memo-dropped copy continue in lockstep -/
+theorem handles_memo_independent_reachable (ops0 ops : List Op) (hv0 : opsValid ops0 2)
+    (hv : opsValid ops (runOps ops0 Store.init [0, 1]).2.length) :
+    let s := (runOps ops0 Store.init [0, 1]).1
+    let hist := (runOps ops0 Store.init [0, 1]).2
+    (runOps ops { s with iteC := {}, resC := {} } hist).2 = (runOps ops s hist).2 ∧
+    (runOps ops { s with iteC := {}, resC := {} } hist).1.nodes = (runOps ops s hist).1.nodes := by
+  intro s hist
+  have ⟨w, _, h⟩ := runOps_refines ops0 Store.init [0, 1] _ WF_init HistOK.init hv0
+  exact runOps_memo_dropped ops s hist w (fun k hk => (h.ok k hk).1) hv
+
+/-- non-vacuity: the hypotheses hold for the fresh object and a concrete operation sequence
+(x0, x1, x0 ∧ x1, x0 ∧ x1 again, ¬(x0 ∧ x1), (x0 ∧ x1)[x0 := ⊤]) … -/
+example :
+    let ops : List Op := [.var 0, .var 1, .and 2 3, .and 2 3, .not 4, .restrict 4 0 true]
+    (runOps ops { Store.init with iteC := {}, resC := {} } [0, 1]).2 = (runOps ops Store.init [0, 1]).2 :=
+  (handles_memo_independent _ Store.init Store.init [0, 1] WF_init WF_init rfl
+    (fun k hk => (HistOK.init.ok k hk).1) (by simp [opsValid, Op.valid, VBOT])).2.1
+
+/-- … and for a warm reachable state against its memo-dropped copy -/
+example :
+    let s := (runOps [.var 0, .var 1, .and 2 3] Store.init [0, 1]).1
+    let hist := (runOps [.var 0, .var 1, .and 2 3] Store.init [0, 1]).2
+    (runOps [.and 2 3, .xor 2 3] { s with iteC := {}, resC := {} } hist).2 =
+    (runOps [.and 2 3, .xor 2 3] s hist).2 :=
+  (handles_memo_independent_reachable [.var 0, .var 1, .and 2 3] [.and 2 3, .xor 2 3]
+    (by simp [opsValid, Op.valid, VBOT]) (by rw [runOps_length]; simp [opsValid, Op.valid])).1
+
 end C11
 
 #print axioms C11.memo_audit_sound
+#print axioms C11.handles_memo_independent
+#print axioms C11.handles_memo_independent_reachable
